@@ -53,7 +53,10 @@ GridInt == {<<49>>, <<57, 48, 48, 55, 49, 57, 57, 50, 53, 52, 55, 52, 48, 57, 57
             <<52, 57, 52, 48, 54, 53, 54, 52, 53, 56, 52, 49, 50, 52, 54, 53, 52, 52>>,
             <<49, 50, 51, 52, 53, 54, 55, 56, 57, 48, 49, 50, 51, 52, 53, 54, 55, 56, 57>>}
 GridFrac == {<<>>, <<53>>}
-GridExp == {<<48>>, <<50, 51>>, <<50, 57, 50>>, <<51, 48, 56>>, <<51, 48, 57>>, <<51, 50, 52>>, <<51, 52, 48>>}
+\* (NumTower's relation reduces fractions with 300-digit terms for the extreme exponents: minutes
+\*  per literal in TLC, so those are left to the thorough tier)
+GridExp == IF MaxLen <= 4 THEN {<<48>>, <<49>>, <<50, 50>>, <<50, 51>>, <<52, 48>>}
+           ELSE {<<48>>, <<50, 51>>, <<51, 48, 56>>, <<51, 50, 52>>}
 \* (computed inside the action that reaches "0.", where TLC caches LET values; the invariant reads the flag)
 FloatGridOk ==
     \A is \in GridInt, fs \in GridFrac, es \in GridExp, ng \in BOOLEAN :
